@@ -320,6 +320,10 @@ class ParserEngine(ParserCore, CanParse):
                 break
 
             expression = trim(expression)
+            # NOTE: the trimmed text is the value unless it evaluates to
+            #   something else; otherwise a text that trim() changes and that
+            #   cannot be evaluated would never reach the fixpoint
+            result = expression
             with suppress(ValueError, SyntaxError):
                 result = stdlib_ast.literal_eval(expression.strip())
                 assert result is not Undefined
